@@ -69,7 +69,72 @@ func main() {
 					if set == "3" {
 						pfx = "k"
 					}
+					if set == "4" {
+						pfx = "q"
+					}
 					enc.Encode(mutant{ID: fmt.Sprintf("%s%04d", pfx, n), File: base, Line: fset.Position(start).Line, Func: fname, Kind: kind, Start: s, End: e, Repl: repl, Text: strings.ReplaceAll(txt, "\n", " ")})
+				}
+				if set == "4" {
+					text := func(a, b token.Pos) string {
+						return string(src[fset.Position(a).Offset:fset.Position(b).Offset])
+					}
+					switch x := nd.(type) {
+					case *ast.ReturnStmt:
+						for _, r := range x.Results {
+							if id, ok := r.(*ast.Ident); ok && (strings.Contains(strings.ToLower(id.Name), "err") || id.Name == "e") {
+								emit("ret-nil", r.Pos(), r.End(), "nil")
+							}
+						}
+					case *ast.DeferStmt:
+						emit("defer-to-call", x.Pos(), x.Call.Pos(), "")
+					case *ast.GoStmt:
+						emit("go-to-call", x.Pos(), x.Call.Pos(), "")
+					case *ast.IfStmt:
+						if x.Else != nil {
+							emit("drop-else", x.Body.End(), x.Else.End(), "")
+						}
+					case *ast.BinaryExpr:
+						if x.Op == token.ADD {
+							if _, isStr := x.X.(*ast.BasicLit); !isStr {
+								if _, isStr2 := x.Y.(*ast.BasicLit); !isStr2 || x.Y.(*ast.BasicLit).Kind != token.STRING {
+									emit("add-sub", x.OpPos, x.OpPos+1, "-")
+								}
+							}
+						}
+						if x.Op == token.SUB {
+							emit("add-sub", x.OpPos, x.OpPos+1, "+")
+						}
+					case *ast.AssignStmt:
+						if x.Tok == token.ADD_ASSIGN {
+							emit("add-sub", x.TokPos, x.TokPos+2, "-=")
+						}
+						if x.Tok == token.SUB_ASSIGN {
+							emit("add-sub", x.TokPos, x.TokPos+2, "+=")
+						}
+					case *ast.BlockStmt:
+						simple := func(st ast.Stmt) bool {
+							switch y := st.(type) {
+							case *ast.ExprStmt:
+								_, ok := y.X.(*ast.CallExpr)
+								return ok
+							case *ast.AssignStmt:
+								return y.Tok == token.ASSIGN || y.Tok == token.ADD_ASSIGN || y.Tok == token.SUB_ASSIGN
+							case *ast.IncDecStmt, *ast.DeferStmt:
+								return true
+							}
+							return false
+						}
+						for i := 0; i+1 < len(x.List); i++ {
+							a, b := x.List[i], x.List[i+1]
+							if simple(a) && simple(b) {
+								ta, tb := text(a.Pos(), a.End()), text(b.Pos(), b.End())
+								if ta != tb {
+									emit("swap-stmts", a.Pos(), b.End(), tb+"\n"+ta)
+								}
+							}
+						}
+					}
+					return true
 				}
 				if set == "3" {
 					switch x := nd.(type) {
